@@ -4,3 +4,4 @@ import ProfiVerif.Props.C16
 import ProfiVerif.Props.C12
 import ProfiVerif.Props.C17
 import ProfiVerif.Props.C18
+import ProfiVerif.Props.C20
